@@ -29,10 +29,12 @@ pub struct Header {
     pub end_aligned: bool,
     /// C03: the buffer is a native account (`layout=account`, or a case id starting with `acct-`)
     pub account: bool,
+    /// C03: the buffer is the repository's own `TestUnderlyingData` (`layout=tbs`, or a case id starting with `tbs-`)
+    pub tbs: bool,
 }
 
 pub fn parse_header(line: &str) -> Header {
-    let bad = |id: &str| Header { id: id.to_string(), shape: None, init: None, init_b: None, swap: false, refuse: vec![], end_aligned: false, account: false };
+    let bad = |id: &str| Header { id: id.to_string(), shape: None, init: None, init_b: None, swap: false, refuse: vec![], end_aligned: false, account: false, tbs: false };
     let Some(t) = parse_toks(line) else { return bad("?") };
     if t.len() < 2 || t[0].atom() != Some("case") {
         return bad("?");
@@ -47,6 +49,7 @@ pub fn parse_header(line: &str) -> Header {
     let mut refuse = vec![];
     let mut end_aligned = false;
     let mut account = id.starts_with("acct-");
+    let mut tbs = id.starts_with("tbs-");
     for opt in &t[si + 1 + nvals..] {
         let Some(a) = opt.atom() else { return bad(&id) };
         if let Some(list) = a.strip_prefix("refuse=") {
@@ -65,6 +68,8 @@ pub fn parse_header(line: &str) -> Header {
             end_aligned = true;
         } else if a == "layout=account" {
             account = true;
+        } else if a == "layout=tbs" {
+            tbs = true;
         } else {
             return bad(&id);
         }
@@ -78,6 +83,7 @@ pub fn parse_header(line: &str) -> Header {
         refuse,
         end_aligned,
         account,
+        tbs: tbs && !swap,
     }
 }
 
@@ -634,8 +640,14 @@ pub fn run_case<T: Node + ?Sized, B: Backing>(header_line: &str, hdr: &Header, s
             let rs: Vec<(usize, usize)> = trace.iter().filter_map(|a| if let Acc::Realloc { old, new, .. } = a { Some((*old, *new)) } else { None }).collect();
             access.note_trace(&rs);
         }
+        let mut limit_panic = false;
         let impl_out = match exec {
             Ok(o) => o,
+            Err(msg) if B::LIMIT_PANICS && msg.contains("data too large") && matches!(plan, Plan::Apply(_)) => {
+                // this store refuses over-growth by panicking (before it changes anything): the refusal
+                limit_panic = true;
+                Out::Err("InvalidRealloc".into())
+            }
             Err(msg) => {
                 orc.cx.rec.op(&line, "panic");
                 orc.cx.rec.bump("outcome:panic");
@@ -709,6 +721,11 @@ pub fn run_case<T: Node + ?Sized, B: Backing>(header_line: &str, hdr: &Header, s
         if dead {
             orc.fail("panic", "re-creating the top accessor failed".into());
             continue;
+        }
+        if limit_panic {
+            // the unwinding went through live accessors: the borrow is not used any further
+            dead = true;
+            orc.cx.rec.bump("fault:limit_panic");
         }
 
         // ---- oracle
